@@ -594,9 +594,20 @@ let () =
               chkw "mon_c04" (c04_nodup_mon post.st);
               (match parse_out post.res with
                | Some o ->
-                 (* objects of a type without Drop impl leave without a trace: for them the ledger takes the model's word *)
-                 let unobs = (match chosen with Some (_, evs) -> List.filter (fun t -> not (List.memq t (observable_drops [t]))) evs.e_dropped | None -> []) in
-                 if post.res <> "panic" then chkw "mon_c06" (c06_mon pre.st p o (post.dropped @ unobs) post.st);
+                 (* objects of a type without Drop impl leave without a trace: in those instantiations the ledger is kept for the
+                    objects of the other class only (the same statement as c06_mon, restricted to observable tokens) *)
+                 if post.res <> "panic" then begin
+                   if !kdrop && !vdrop then chkw "mon_c06" (c06_mon pre.st p o post.dropped post.st)
+                   else begin
+                     let zs l = List.sort Z.compare (List.map z_of_n (observable_drops l)) in
+                     let before = zs (all_toks pre.st.ents @ op_toks p) and after = zs (all_toks post.st.ents @ post.dropped @ returned p o) in
+                     let rec nodup = function x :: (y :: _ as r) -> not (Z.equal x y) && nodup r | _ -> true in
+                     let rec sub a b = (match a, b with [], _ -> true | _, [] -> false
+                                        | x :: a', y :: b' -> if Z.equal x y then sub a' b' else if Z.gt x y then sub a b' else false) in
+                     let forgets = (match p with DrainOp (_, FForget) -> true | _ -> false) in
+                     chkw "mon_c06" (nodup after && (if forgets then sub after before else (List.length after = List.length before && sub after before)))
+                   end
+                 end;
                  List.iter (fun t -> Hashtbl.replace returned_ever (s_of_n t) ()) (returned p o)
                | None -> ());
               chkw "mon_c20" (c20_mon pre.st p post.hashes moved post.st);
